@@ -96,6 +96,17 @@ func workerMain() {
 	lim := syscall.Rlimit{Cur: limGiB << 30, Max: limGiB << 30}
 	syscall.Setrlimit(syscall.RLIMIT_AS, &lim)
 	debug.SetMaxStack(64 << 20)
+	if p := os.Getenv("C11_MEMPROFILE"); p != "" {
+		// diagnostic: every allocation of this worker, by call site (go tool pprof -sample_index=alloc_space)
+		runtime.MemProfileRate = 1
+		defer func() {
+			if f, err := os.Create(fmt.Sprintf("%s.%d", p, os.Getpid())); err == nil {
+				runtime.GC()
+				pprof.Lookup("allocs").WriteTo(f, 0)
+				f.Close()
+			}
+		}()
+	}
 	watchdog := 90 * time.Second
 	if s := os.Getenv("C11_WATCHDOG_S"); s != "" {
 		if v, err := strconv.Atoi(s); err == nil && v > 0 {
